@@ -452,6 +452,12 @@ class Sym(object):
             return True
         return r
 
+    def __getitem__(self, idx):
+        # like a numpy scalar: x[...] and x[()] are the number itself
+        if idx is Ellipsis or (isinstance(idx, tuple) and len(idx) == 0):
+            return self
+        raise TypeError('symbolic scalar is not subscriptable with %r' % (idx,))
+
     # -- complex protocol --------------------------------------------------
     @property
     def real(self):
